@@ -2,9 +2,9 @@ SPECIFICATION Spec
 CONSTANTS
   MaxPrep = 2
   NP = 2
-  MaxLen = 5
+  MaxLen = 4
   MaxBad = 1
   KeepOnFailure = FALSE
-  GenLen = 5
+  GenLen = 4
 INVARIANTS Emit
 CHECK_DEADLOCK FALSE
